@@ -53,7 +53,7 @@ func main() {
 	pkgsFlag := flag.String("pkgs", ".,persist/file,persist/s3", "package dirs relative to repo")
 	knownPath := flag.String("known", "/verif/known-findings.json", "known findings file")
 	replayDir := flag.String("replays", "/verif/replays", "replay directory")
-	workers := flag.Int("j", 6, "parallel solver processes")
+	workers := flag.Int("j", 4, "parallel solver processes")
 	verbose := flag.Bool("v", false, "verbose")
 	listOnly := flag.Bool("list", false, "list obligations only")
 	flag.Parse()
@@ -212,14 +212,14 @@ func main() {
 				}
 			}
 		}
-		if len(retry) > 0 && len(retry) <= 6 {
+		if len(retry) > 0 && len(retry) <= 8 {
 			for i, ob := range retry {
 				one := &FnEnc{e: retryEnc[i].e, name: retryEnc[i].name, kindN: map[string]int{}}
 				one.out.WriteString(retryEnc[i].out.String())
 				one.obls = []*Obligation{ob}
 				prev := ob.Result
 				atomic.StoreInt32(&nFailed, 0)
-				solveAll(retryRun[i].prel, []*FnEnc{one}, tmp, timeout, 1)
+				solveAll(retryRun[i].prel, []*FnEnc{one}, tmp, timeout*4, 1)
 				if ob.Result != nil && ob.Result.Status != "unsat" && ob.Result.Status != "sat" {
 					ob.Result.Tried = append(prev.Tried, ob.Result.Tried...)
 				}
